@@ -5,6 +5,7 @@ from collections import defaultdict
 from dataclasses import dataclass, field
 from typing import TYPE_CHECKING, Optional
 
+from sqlfluff.core.errors import SQLParseError
 from sqlfluff.core.parser import BaseSegment, SourceFix
 from sqlfluff.core.rules.fix import LintFix
 
@@ -331,11 +332,17 @@ def apply_fixes(
         # Otherwise only validate if there's a match_grammar. Otherwise we may get
         # strange results (for example with the BracketedSegment).
         elif hasattr(new_seg, "match_grammar"):
-            validated = new_seg.validate_segment_with_reparse(
-                dialect,
-                max_parse_depth=max_parse_depth,
-                max_parse_nodes=max_parse_nodes,
-            )
+            try:
+                validated = new_seg.validate_segment_with_reparse(
+                    dialect,
+                    max_parse_depth=max_parse_depth,
+                    max_parse_nodes=max_parse_nodes,
+                )
+            except SQLParseError as err:
+                # The parse limits were hit while re-parsing, so we can't
+                # confirm that the fixed segment is valid.
+                linter_logger.debug("Validation aborted for %s: %s", new_seg, err)
+                validated = False
     else:
         validated = not requires_validate
     # Return the new segment and any non-code that needs to bubble up
